@@ -168,7 +168,7 @@ CLAIMED["C18"] = (
     "Coq proof (schedule independence of the index-addressed open; permutation invariance of the sorted Docker-label fold; commutation of slot writes; a float non-associativity witness) + exhaustive completion orders and repetition on order-sensitive queries",
     "Theorems open_schedule_indep, open_writes_disjoint, labels_order_indep / container_labels_deterministic (+ prefix_labels_order_dependent, D28), float_sum_order_matters (why D16 was a defect), vagg_step_deterministic. The check evaluates "
     "queries whose answer is sensitive to any ordering freedom (limits cutting inside cross-container ties, topk over ties, float sums of 0.1/0.2/0.3-like values, binary operations under an outer aggregation) under every completion "
-    "order of the concurrent ContainerLogs calls (thorough: all n! up to 5 containers) and three repetitions per order, and demands the same streams / series in the same order with the same bits; C15's theorem makes rendering a "
+    "order of the concurrent ContainerLogs calls (thorough: all n! up to 4 containers, a sample of 30 for 5) and three repetitions per order, and demands the same streams / series in the same order with the same bits; C15's theorem makes rendering a "
     "function of that list. PARTIAL: Go-memory-model race freedom is a runtime property: the thorough tier re-runs the scenarios on a -race build as supporting evidence, no theorem covers it.",
     DOCK_NOTE, "DESIGN.md 4 C18")
 CLAIMED["C17"] = (
